@@ -456,3 +456,62 @@ Proof.
   end;
   try specialize (M1 x Hx); try specialize (M2 x Hx); try specialize (M3 x Hx); lra.
 Qed.
+
+(** ** the same for possibly collinear but pairwise distinct points (used by Proofs/SimplexOrigCand.v) *)
+(** the region lemma for possibly collinear, pairwise distinct points: D >= 0 and all three edges > 0 *)
+Lemma tri_core0 (d1 d2 g11 g12 g22 : R) :
+  0 < g11 -> 0 < g22 -> 0 <= g11 * g22 - g12 * g12 ->
+  d1 < 0 -> 0 < d2 -> g11 * d2 - g12 * d1 <= 0 ->
+  ~ (g22 * d1 - g12 * d2 <= 0 /\ d2 - g22 <= 0) ->
+  ~ (0 <= d2 - g22 /\ d1 - g12 <= d2 - g22) ->
+  False.
+Proof.
+  intros Hg11 Hg22 HD H1 H2 Hvc HAC HC.
+  assert (Hg : g12 < 0) by nra.
+  destruct (Rlt_le_dec 0 (g22 * d1 - g12 * d2)) as [Hvb|Hvb].
+  - assert (P0 : 0 < - d1 * d2) by nra.
+    assert (P1 : (g11 * d2) * (g22 * (- d1)) <= (g12 * d1) * (g22 * (- d1))) by (apply Rmult_le_compat_r; nra).
+    assert (P2 : (g22 * (- d1)) * (- g12 * d1) < (- g12 * d2) * (- g12 * d1)) by (apply Rmult_lt_compat_r; nra).
+    nra.
+  - assert (H6 : 0 < d2 - g22) by (destruct (Rlt_le_dec 0 (d2 - g22)); [assumption|exfalso; apply HAC; lra]).
+    assert (H5 : d2 - g22 < d1 - g12) by (destruct (Rlt_le_dec (d2 - g22) (d1 - g12)); [assumption|exfalso; apply HC; lra]).
+    assert (Q1 : 0 < (- g12) * (- g12 - (d2 - g22) + d1)) by (apply Rmult_lt_0_compat; lra).
+    assert (Q2 : 0 < (g11 - g12) * (d2 - g22)) by (apply Rmult_lt_0_compat; lra).
+    nra.
+Qed.
+
+Lemma tri_vc_pos0 d1 d2 g11 g12 g22 :
+  0 < g11 -> 0 < g22 -> 0 < g11 - 2 * g12 + g22 -> 0 <= aD g11 g12 g22 -> no_arm d1 d2 g11 g12 g22 -> 0 < avc d1 d2 g11 g12.
+Proof.
+  unfold no_arm, armA, armB, armAB, armC, armAC, armBC, ava, avb, avc, aD.
+  intros Hg11 Hg22 Hg22' HD (HA & HB & HAB & HC & HAC & HBC).
+  destruct (Rlt_le_dec 0 (g11 * d2 - g12 * d1)) as [|Hvc]; [assumption|exfalso].
+  destruct (Rlt_le_dec d1 0) as [H1|H1].
+  - assert (H2 : 0 < d2) by (destruct (Rlt_le_dec 0 d2); [assumption|exfalso; apply HA; lra]).
+    apply (tri_core0 d1 d2 g11 g12 g22); auto.
+    intros [h1 h2]. apply HAC. lra.
+  - assert (H3 : 0 < d1 - g11) by (destruct (Rlt_le_dec 0 (d1 - g11)); [assumption|exfalso; apply HAB; lra]).
+    assert (H4 : d1 - g11 < d2 - g12) by (destruct (Rlt_le_dec (d1 - g11) (d2 - g12)); [assumption|exfalso; apply HB; lra]).
+    apply (tri_core0 (g11 - d1) ((d2 - g12) - (d1 - g11)) g11 (g11 - g12) (g11 - 2 * g12 + g22)); auto; try lra.
+    all: intros [h1 h2]; first [apply HBC; lra | apply HC; lra].
+Qed.
+
+Lemma tri_all_pos0 d1 d2 g11 g12 g22 :
+  0 < g11 -> 0 < g22 -> 0 < g11 - 2 * g12 + g22 -> 0 <= aD g11 g12 g22 -> no_arm d1 d2 g11 g12 g22 ->
+  0 < ava d1 d2 g11 g12 g22 /\ 0 < avb d1 d2 g12 g22 /\ 0 < avc d1 d2 g11 g12.
+Proof.
+  intros Hg11 Hg22 Hgbc HD Hn. split; [|split].
+  - pose proof (tri_vc_pos0 ((d2 - g12) - (d1 - g11)) (g11 - d1) (g11 - 2 * g12 + g22) (g11 - g12) g11) as H.
+    unfold ava, avb, avc, aD in *.
+    specialize (H Hgbc Hg11).
+    assert (E1 : 0 < g11 - 2 * g12 + g22 - 2 * (g11 - g12) + g11) by lra.
+    assert (E : 0 <= (g11 - 2 * g12 + g22) * g11 - (g11 - g12) * (g11 - g12)) by lra.
+    specialize (H E1 E (no_arm_rot _ _ _ _ _ Hn)).
+    match goal with |- 0 < ?x => match type of H with 0 < ?y => replace x with y by ring end end. exact H.
+  - pose proof (tri_vc_pos0 d2 d1 g22 g12 g11 Hg22 Hg11) as H.
+    unfold ava, avb, avc, aD in *.
+    assert (E1 : 0 < g22 - 2 * g12 + g11) by lra.
+    assert (E : 0 <= g22 * g11 - g12 * g12) by lra.
+    specialize (H E1 E (no_arm_swap_bc _ _ _ _ _ Hn)). lra.
+  - apply tri_vc_pos0 with (g22 := g22); auto.
+Qed.
